@@ -29,3 +29,11 @@ def gen(rng, tier):
         else:
             cases.append(queues.random_history(rng, rng.randint(5, 40), drain=True))
     return cases
+
+PINNED = ['C06_holds', 'C06_wf_needed', 'C06_tick_window']
+LEVEL_TEXT = 'Theorem over all well-formed histories: with the shared queue non-empty a handle is served from it within 61 consecutive pops (invariant starve <= tick mod 61, including the u32 wrap), an idle pop implies nothing is pending anywhere; plus the stand-alone tick-window theorem for every 32-bit start value. Tied to the code by 130-200-pop histories and idle pops after steals.'
+LEVEL_NOTE = ("Trusted: Coq kernel + vm_compute; hand transcription of ordered_work_steal.rs (model OWS.v) validated on the "
+              "sampled histories only; st3 rings / crossbeam injectors / skiplist modelled as FIFO lists and a sorted map; "
+              "sequential histories (one call at a time); the steal start index is an input via the build.rs import "
+              "rewrite. The plain WorkStealQueue is not modelled. No axioms (closed under the global context).")
+TECHNIQUE = "Coq proof (invariants over all histories of a Gallina model) + lockstep differential correspondence inside Coq"
